@@ -20,7 +20,7 @@ PROPERTY = "C01"
 RULE = (
     "cases = formula strings: (a) all token sequences up to a length bound over a 28-symbol alphabet (25 tokens, an illegal character, an opening quote, an opening back-quote) joined by "
     "single spaces, (b) sentences generated from the grammar (unbounded depth) rendered with drawn whitespace and "
-    "redundant parentheses, (c) near-miss mutations of those (extra token, dropped closer, second ~, dropped "
+    "redundant parentheses, (c) near-miss mutations of those (extra token, dropped closer, second ~, a ~ nested in parentheses, dropped "
     "operand), (d) character-level strings; distinct = distinct string; non-trivial = a sentence whose tree puts "
     "two operators of different precedence next to each other or chains one operator >= 3 times, or a non-sentence "
     "that has a sentence as a proper token prefix (left-over class), or a string that is not tokenisable"
@@ -509,7 +509,7 @@ CLOSERS = {"RIGHT_PAREN", "RIGHT_BRACKET", "RIGHT_BRACE"}
 def nearmiss_case(draw, leaves):
     c = draw(sentence_case(leaves))
     toks = rp.tokenize(c["base"])
-    kind = draw(st.sampled_from(["append", "append", "drop_closer", "second_tilde", "juxtapose", "drop_operand", "unclosed_quote", "insert"]))
+    kind = draw(st.sampled_from(["append", "append", "drop_closer", "second_tilde", "nested_tilde", "juxtapose", "drop_operand", "unclosed_quote", "insert"]))
     lex = [t[1] for t in toks]
     if kind == "append":
         lex = lex + [draw(st.sampled_from(SIGMA + ["z", "'s'", "`q`", "%", "!", ".", "//"]))]
@@ -526,6 +526,17 @@ def nearmiss_case(draw, leaves):
         if lex.count("~") < 2:
             lex.append("~")
             lex.append("x")
+    elif kind == "nested_tilde":
+        # a second `~` hidden inside parentheses in place of an operand (or around the whole right-hand side)
+        idx = [i for i, t in enumerate(toks) if t[0] == "IDENTIFIER" and (i + 1 == len(toks) or toks[i + 1][0] != "LEFT_PAREN")]
+        if idx and draw(st.integers(0, 3)) > 0:
+            i = draw(st.sampled_from(idx))
+            lex[i:i + 1] = ["(", lex[i], "~", draw(st.sampled_from(["v", "1", "x + z"])), ")"]
+        elif "~" in lex:
+            k = lex.index("~")
+            lex = lex[: k + 1] + ["("] + lex[k + 1:] + ["~", "v", ")"]
+        if "~" not in lex[: max(1, lex.index("(") if "(" in lex else len(lex))]:
+            lex = ["y", "~"] + lex
     elif kind == "juxtapose":
         lex.insert(draw(st.integers(0, len(lex))), draw(st.sampled_from(["x", "1", "'a'", "f"])))
     elif kind == "drop_operand":
